@@ -6,6 +6,7 @@ package main
 
 import (
 	"strings"
+	"unicode/utf8"
 )
 
 var c06Alphabet = []string{"", "a", "b", "ab", ",", "a,b", "/", "\x00"}
@@ -84,6 +85,19 @@ func (g *Gen) c06E2E(cls, tmpl string, names []string, tuples [][]string, mode i
 	s = append(s, names...)
 	s = append(s, c06Flat(tuples)...)
 	g.Case(5, c06B(s...), []int64{int64(len(names)), int64(mode)})
+}
+
+func (g *Gen) c06Key(cls string, n int, tuples [][]string) {
+	g.Count("key:" + cls)
+	withCounter := 1
+	for _, t := range tuples {
+		for _, k := range t {
+			if !utf8.ValidString(k) {
+				withCounter = 0
+			}
+		}
+	}
+	g.Case(6, c06B(c06Flat(tuples)...), []int64{int64(n), int64(withCounter)})
 }
 
 func (g *Gen) c06Metric(cls string, names []string, tuples [][]string) {
@@ -357,6 +371,78 @@ func c06Gen(g *Gen) {
 			g.c06Route("length-boundary", "$k0-$k1", n2, nil, append(append([][]string{}, group...), group...), 2, g.c06RandSinks(2*len(group), 2))
 			g.c06Metric("length-boundary", n2, append(append([][]string{}, group...), group[0]))
 			g.c06Route("length-boundary", "${k0[:3]}", n1, nil, [][]string{{long[:l]}, {long[:l+1]}, {long[:l]}}, 1, nil)
+		}
+	}
+	// ------------------------------------------------------------------ pairs that collide if the length prefix were cut to one byte / two bytes
+	{
+		x255 := strings.Repeat("x", 255)
+		a := []string{"\x00" + x255, ""}
+		b := []string{"", x255 + "\x00"}
+		g.c06Route("prefix-truncation", "${k0[:2]}-${k1[:2]}", n2, nil, [][]string{a, b, a, b}, 1, nil)
+		g.c06Metric("prefix-truncation", n2, [][]string{a, b, b})
+		// a length prefix placed after the value instead of before it
+		g.c06Route("prefix-truncation", "$k0-$k1", n2, nil, [][]string{{"a\x01", ""}, {"a", "\x00"}, {"", "a\x01"}, {"\x00", "a"}}, 1, nil)
+		g.c06Metric("prefix-truncation", n2, [][]string{{"a\x01", ""}, {"a", "\x00"}, {"", "a\x01"}, {"\x00", "a"}})
+	}
+	// ------------------------------------------------------------------ random templates over the template alphabet, names that are prefixes of each other
+	for i := 0; i < g.Pick(400, 20000); i++ {
+		names := [][]string{{"k0"}, {"k", "k0"}, {"k0", "k00", "k"}, {"a", "ab", "b"}, {"_", "_1"}}[r.Intn(5)]
+		var sb strings.Builder
+		for k := r.Range(1, 5); k > 0; k-- {
+			nm := names[r.Intn(len(names))]
+			if r.Chance(1, 10) {
+				nm = r.PickStr([]string{"k9", "", "K0", "k0k"})
+			}
+			num := func() string {
+				return r.PickStr([]string{"", "", "0", "1", "2", "3", "-1", "-2", "-3", "9", "-9", "01", "-0", "1 ", "+1", "--1", "a"})
+			}
+			switch r.Intn(12) {
+			case 0, 1, 2:
+				sb.WriteString("$" + nm)
+			case 3, 4:
+				sb.WriteString("${" + nm + "}")
+			case 5, 6, 7:
+				sb.WriteString("${" + nm + "[" + num() + ":" + num() + "]}")
+			case 8:
+				sb.WriteString(r.PickStr([]string{".", "-", "x", "}", "{", "[", "]", ":", " ", "\xc3\xa9", "lit_"}))
+			case 9:
+				sb.WriteString(r.PickStr([]string{"$", "$$", "${", "${}", "${" + nm, "${" + nm + "[1:2]", "${" + nm + "[1]}", "${" + nm + "[1:2:3]}", "${" + nm + " }", "${" + nm + "[1:2]x}", "$-"}))
+			default:
+				sb.WriteString(string(r.Bytes(r.Range(1, 3), []byte("$k0{}[]:-1 ._"))))
+			}
+		}
+		var recs [][]string
+		for k := 0; k < 3; k++ {
+			t := make([]string, len(names))
+			for j := range t {
+				t[j] = "abcdef"[:r.Intn(5)] + r.PickStr([]string{"", "", ",", "\x00"})
+			}
+			recs = append(recs, t)
+		}
+		g.c06Route("random-template", sb.String(), names, nil, recs, 1, nil)
+	}
+	// ------------------------------------------------------------------ the merged keys themselves (kind 6)
+	{
+		for n := 1; n <= 3; n++ {
+			g.c06Key("all-tuples", n, c06AllTuples(n, c06Alphabet))
+			g.c06Key("alphabet-b", n, c06AllTuples(n, []string{"", "\x00", "\x01", "\x01a", "a", "\x02", "\x7f", "\x02a"}))
+		}
+		for _, l := range []int{0, 1, 2, 126, 127, 128, 129, 130, 255, 256, 257, 300, 1000} {
+			long := strings.Repeat("x", l)
+			g.c06Key("length-boundary", 1, [][]string{{long}, {long + "y"}})
+			g.c06Key("length-boundary", 2, [][]string{{long, ""}, {"", long}, {long, long}})
+		}
+		// a prefix cut to one byte; a length suffix instead of a prefix (both collide only on long values)
+		x255 := strings.Repeat("x", 255)
+		g.c06Key("adversarial", 2, [][]string{{"\x00" + x255, ""}, {"", x255 + "\x00"}})
+		x127 := strings.Repeat("x", 127)
+		g.c06Key("adversarial", 2, [][]string{{"\x00" + x127, "\x81"}, {"", x127 + "\x80\x01"}})
+		g.c06Key("adversarial", 2, [][]string{{"\x00" + x127, "\xc2\x81"}, {"", x127 + "\x80\x01"}})
+		g.c06Metric("adversarial", n2, [][]string{{"\x00" + x127, "\x01"}, {"", x127 + "\x01\x01"}, {"\x00" + x127, "\x01"}})
+		g.c06Route("adversarial", "${k0[:1]}${k1[:1]}", n2, nil, [][]string{{"\x00" + x127, "\x81"}, {"", x127 + "\x80\x01"}, {"\x00" + x127, "\x81"}}, 1, nil)
+		for i := 0; i < g.Pick(500, 20000); i++ {
+			n := r.Range(1, 4)
+			g.c06Key("random", n, g.c06RandGroup(n, r.Range(2, 8), r.Bool()))
 		}
 	}
 	// ------------------------------------------------------------------ substring expressions: every start/end around the key length
